@@ -143,11 +143,15 @@ def run(cx, rep):
             fn = fam.classes[cname].methods[mname]["function"]
             for nd in nodes:
                 # the read sits in the else-branch of `if (this.indexedPropertiesParser.length > 0)`
+                # (however the branch is spelled: else-branch, early return of the index-signature case, `=== 0`)
                 in_else = False
-                for i in walk(fn):
-                    if i["type"] == "IfStatement" and ("this.%s.length" % ts_common.index_signature_field(fam, cname)) in s(i["test"]) and i.get("alternate") is not None:
-                        if any(x is nd for x in walk(i["alternate"])):
-                            in_else = True
+                lens = "this.%s.length" % ts_common.index_signature_field(fam, cname)
+                for a_, v_ in ts_common.known_atoms(fn, nd).items():
+                    a2 = a_.replace("(", "").replace(")", "").replace(" ", "")
+                    if lens not in a2:
+                        continue
+                    if (a2 in (lens + ">0", lens + "!==0", lens + "!=0", lens + ">=1", lens) and v_ is False) or (a2 in (lens + "===0", lens + "==0", lens + "<1") and v_ is True):
+                        in_else = True
                 rep.ob("C11.2", "%s.%s/no-index-signature-branch" % (cname, mname), in_else,
                        "%s.%s must consult the flag only when no index signature admits further keys" % (cname, mname), mod.loc(nd))
                 # the comparison is Object.keys(input) filtered by the class's own keys
